@@ -111,6 +111,7 @@ func runInprocScript(rng *Rng, kind string, o isOpts) *isScript {
 	sendSideClosed := false
 
 	exec := func(st isStep) isStep {
+		noteStep(sc.transport+"/stream", sc.line(), st.actor+"."+st.op)
 		switch st.actor {
 		case "cs":
 			switch st.op {
